@@ -240,11 +240,21 @@ type e2eCase struct {
 	Final          int64
 	ClosedOK       int64
 	Shapes         []string `json:",omitempty"` // malformed feedback shapes fed (malformed-* patterns)
+	PacerCloseErr  bool     `json:",omitempty"` // the user-supplied pacer's Close reports an error
+}
+
+// recPacer is what the sets need of the pacer they inject.
+type recPacer interface {
+	gcc.Pacer
+	snapshot() []int64
 }
 
 func runE2E(c e2eCase, fails *[]cq.ImplFailure) e2eCase {
 	r := rand.New(rand.NewSource(c.Seed)) //nolint:gosec
-	p := &pacer{NoOpPacer: gcc.NewNoOpPacer()}
+	var p recPacer = &pacer{NoOpPacer: gcc.NewNoOpPacer()}
+	if c.PacerCloseErr {
+		p = newScriptedPacer(false, int(c.Init), []bool{true})
+	}
 	bwe, err := gcc.NewSendSideBWE(gcc.SendSideBWEInitialBitrate(int(c.Init)), gcc.SendSideBWEMinBitrate(int(c.Min)),
 		gcc.SendSideBWEMaxBitrate(int(c.Max)), gcc.SendSideBWEPacer(p))
 	if err != nil {
@@ -356,13 +366,31 @@ func runE2E(c e2eCase, fails *[]cq.ImplFailure) e2eCase {
 	done := make(chan error, 1)
 	go func() { done <- bwe.Close() }()
 	select {
-	case <-done:
+	case cerr := <-done:
+		// Close returns what the pacer's Close reported: nil, or the injected error of the scripted pacer
+		if c.PacerCloseErr != errors.Is(cerr, errPacerClose) || (!c.PacerCloseErr && cerr != nil) {
+			*fails = append(*fails, cq.ImplFailure{Kind: "close-error", Detail: fmt.Sprintf("Close returned %v (pacer's Close reports an error: %v)", cerr, c.PacerCloseErr), Case: c})
+		}
 	case <-time.After(3 * time.Second):
 		*fails = append(*fails, cq.ImplFailure{Kind: "close-blocks", Detail: "Close did not return", Case: c})
 	}
 	time.Sleep(5 * time.Millisecond)
-	if err := bwe.WriteRTCP(rec.BuildFeedbackPacket(), nil); errors.Is(err, gcc.ErrSendSideBWEClosed) {
-		c.ClosedOK = 1
+	// after Close - whatever it returned - feedback fails with the closed error (never a panic, never a hang)
+	after := make(chan error, 1)
+	go func() {
+		defer func() {
+			if x := recover(); x != nil {
+				after <- fmt.Errorf("panic: %v", x) //nolint:err113
+			}
+		}()
+		after <- bwe.WriteRTCP(rec.BuildFeedbackPacket(), nil)
+	}()
+	select {
+	case aerr := <-after:
+		if errors.Is(aerr, gcc.ErrSendSideBWEClosed) {
+			c.ClosedOK = 1
+		}
+	case <-time.After(3 * time.Second):
 	}
 	c.Pacer = p.snapshot()
 	cbMu.Lock()
@@ -392,7 +420,8 @@ func (c e2eCase) toCase() cq.Case {
 	return cq.Case{
 		Coq: cq.T(cq.Z(c.Min), cq.Z(c.Max), cq.Z(c.Init), cq.LZ(c.Pacer), cq.LZ(sorted(c.CB)), cq.LZ(sorted(c.Pacer)),
 			cq.Z(c.Final), cq.Z(c.ClosedOK)),
-		JSON: c, Buckets: append([]string{c.Pattern}, c.Shapes...), Trivial: len(c.Pacer) == 0,
+		JSON: c, Buckets: append(append([]string{c.Pattern}, c.Shapes...), map[bool]string{true: "pacer-close-fails", false: "pacer-close-ok"}[c.PacerCloseErr]),
+		Trivial: len(c.Pacer) == 0,
 	}
 }
 
@@ -411,10 +440,18 @@ func main() {
 		Name: "c16loss", Import: "IV.Check.C16bCheck", CaseType: "loss_case",
 		Checks: []string{"loss_mismatches", "loss_spec_failures"},
 	}
+	life := &cq.Set{
+		Name: "c16life", Import: "IV.Check.C16dCheck", CaseType: "life_case",
+		Checks: []string{"life_mismatches", "life_spec_failures"},
+	}
 	extra := map[string]interface{}{}
 	if o.Replay != "" {
 		var probe map[string]interface{}
 		switch set := cq.LoadReplay(o.Replay, &probe); {
+		case set == "c16life" || strings.HasPrefix(set, "impl-") && probe["Script"] != nil && probe["Ops"] != nil && probe["Writers"] == nil:
+			var c lifeCase
+			cq.LoadReplay(o.Replay, &c)
+			life.Cases = append(life.Cases, runLife(c, &fails).toCase("replay"))
 		case set == "c16e2e" || strings.HasPrefix(set, "impl-") && probe["Writers"] == nil && probe["Pattern"] != nil:
 			var c e2eCase
 			cq.LoadReplay(o.Replay, &c)
@@ -446,16 +483,21 @@ func main() {
 			cq.LoadReplay(o.Replay, &c)
 			dec.Cases = append(dec.Cases, runDec(c, &fails).toCase("replay"))
 		}
-		cq.Write(o, "replay", []*cq.Set{dec, e2e, fn, conc, loss}, nil, fails)
+		cq.Write(o, "replay", []*cq.Set{life, dec, e2e, fn, conc, loss}, nil, fails)
 
 		return
 	}
 	for _, f := range o.CorpusFiles() {
 		var probe map[string]interface{}
-		if cq.LoadReplay(f, &probe) == "c16dec" {
+		switch cq.LoadReplay(f, &probe) {
+		case "c16dec":
 			var c decCase
 			cq.LoadReplay(f, &c)
 			dec.Cases = append(dec.Cases, runDec(c, &fails).toCase("corpus"))
+		case "c16life":
+			var c lifeCase
+			cq.LoadReplay(f, &c)
+			life.Cases = append(life.Cases, runLife(c, &fails).toCase("corpus"))
 		}
 	}
 	n := o.Scale(1500, 30000)
@@ -473,7 +515,7 @@ func main() {
 	res := make([]e2eCase, ne)
 	sem := make(chan struct{}, 12)
 	for i := 0; i < ne; i++ {
-		c := e2eCase{Seed: r.Int63(), Pattern: pats[i%len(pats)], NoCB: i%4 == 3}
+		c := e2eCase{Seed: r.Int63(), Pattern: pats[i%len(pats)], NoCB: i%4 == 3, PacerCloseErr: i%5 == 2}
 		switch i % 3 {
 		case 0:
 			c.Min, c.Max, c.Init = 5000, 50000000, 10000
@@ -504,6 +546,27 @@ func main() {
 	nc := o.Scale(60, 1200)
 	for i := 0; i < nc; i++ {
 		conc.Cases = append(conc.Cases, runConc(genConc(r, i), &fails).toCase())
+	}
+	// sequential life cycles with a user-supplied pacer whose Close reports errors
+	nlife := o.Scale(240, 4000)
+	{
+		lres := make([]lifeCase, nlife)
+		lsem := make(chan struct{}, 8)
+		var lwg sync.WaitGroup
+		for i := 0; i < nlife; i++ {
+			c := genLife(r, i)
+			lwg.Add(1)
+			lsem <- struct{}{}
+			go func(i int, c lifeCase) {
+				defer lwg.Done()
+				lres[i] = runLife(c, nil)
+				<-lsem
+			}(i, c)
+		}
+		lwg.Wait()
+		for _, c := range lres {
+			life.Cases = append(life.Cases, c.toCase())
+		}
 	}
 	// structured loss updates (needs the hook method VerifLossStep; skipped when the tree does not have it)
 	nl := o.Scale(400, 8000)
@@ -542,6 +605,9 @@ func main() {
 		"conc: 1..6 goroutines x 1..5 WriteRTCP calls with real TWCC feedback, 0..2 getter goroutines, 1..3 Close callers at a random point, "+
 		"then a further Close and two more WriteRTCP calls; call/return events stamped by one atomic counter and checked against what the LTS allows; "+
 		"non-trivial = feedback accepted before and refused after the Close within one scenario; "+
-		"loss: updateLossEstimate sequences (0..100% loss, thresholds, empty updates, timers armed / disarmed / as the code left them); non-trivial = a branch was taken",
-		[]*cq.Set{dec, e2e, fn, conc, loss}, extra, fails)
+		"loss: updateLossEstimate sequences (0..100% loss, thresholds, empty updates, timers armed / disarmed / as the code left them); non-trivial = a branch was taken; "+
+		"life: one caller's WriteRTCP (TWCC, RFC 8888, mixed, no feedback packet) / Close / getter calls in any order on an estimator with a user-supplied pacer "+
+		"(around the NoOp or the leaky bucket pacer) whose Close reports an error the first time / every time / never / at random; results and the number of pacer Close calls per call; "+
+		"non-trivial = a WriteRTCP or a Close follows a Close; e2e (every 5th) and conc (every 3rd) run with such a failing pacer as well",
+		[]*cq.Set{life, dec, e2e, fn, conc, loss}, extra, fails)
 }
